@@ -307,8 +307,9 @@ class Prog:
         m = self.mod(f["module"], ref=ref)
         d = self.w.refdds if ref else sys.modules["dds"]
         ns = {"OrderedDict": __import__("collections").OrderedDict, "PurePosixPath": __import__("pathlib").PurePosixPath}
-        args = [eval(a, ns) for a in e.get("args", [])]
-        kwargs = {n: eval(a, ns) for n, a in e.get("kwargs", [])}
+        r = S.Renderer(self.spec, self.variant, self.pkg, self.xpkg)
+        args = [eval(r.epv(a), ns) for a in e.get("args", [])]
+        kwargs = {n: eval(r.epv(a), ns) for n, a in e.get("kwargs", [])}
         fn = getattr(m, e["fn"])
         if e["kind"] == "eval":
             return d.eval(fn, *args, **kwargs, **(opts or {}))
